@@ -152,6 +152,16 @@ func (p *Peering) AddLink(link Link) error {
 	p.linksLock.Lock()
 	defer p.linksLock.Unlock()
 
+	// Never replace the registration of another link: two connections to the
+	// same peer (both ends dialing each other) or two links that picked the
+	// same switch label must not shadow each other.
+	if existing, ok := p.links[link.Peer()]; ok && existing != link {
+		return fmt.Errorf("already connected to %s", link.Peer())
+	}
+	if existing, ok := p.linksByLabel[link.SwitchLabel()]; ok && existing != link {
+		return fmt.Errorf("switch label %d is already in use", link.SwitchLabel())
+	}
+
 	_, err := p.instance.RoutingTable().AddRoute(m.RoutingTableEntry{
 		DstIP:   link.Peer(),
 		NextHop: link.Peer(),
@@ -172,9 +182,14 @@ func (p *Peering) RemoveLink(link Link) {
 	p.linksLock.Lock()
 	defer p.linksLock.Unlock()
 
-	delete(p.links, link.Peer())
-	delete(p.linksByLabel, link.SwitchLabel())
-	p.instance.RoutingTable().RemoveNextHop(link.Peer())
+	// Only remove what is registered for this very link.
+	if p.links[link.Peer()] == link {
+		delete(p.links, link.Peer())
+		p.instance.RoutingTable().RemoveNextHop(link.Peer())
+	}
+	if p.linksByLabel[link.SwitchLabel()] == link {
+		delete(p.linksByLabel, link.SwitchLabel())
+	}
 
 	// If we reach zero links, trigger peering.
 	if len(p.links) == 0 && !p.mgr.IsDone() {
